@@ -132,8 +132,9 @@ class Obligation:
 
 
 class LoopSpec:
-    def __init__(self, inv=None, modifies=None, ghost=None, unroll=None, allocates=False):
+    def __init__(self, inv=None, modifies=None, ghost=None, unroll=None, allocates=False, step=None, step_props=None):
         self.allocates = allocates
+        self.step = step or {}  # STEP CONTRACT: clauses relating the state after one iteration to pre_iter(...)
         self.inv = inv or {}  # name -> spec string
         self.modifies = modifies or []  # heap locations "expr.field" havocked by the loop
         self.ghost = ghost or {}
@@ -141,12 +142,13 @@ class LoopSpec:
 
 
 class Engine:
-    def __init__(self, repo, contracts=None, mode="prove", unroll=2, feas_timeout=2000, max_depth=12):
+    def __init__(self, repo, contracts=None, mode="prove", unroll=2, feas_timeout=1000, max_depth=12):
         self.repo = repo
         self.contracts = contracts or {}
         self.mode = mode
         self.unroll = unroll
         self.feas_timeout = feas_timeout
+        self.feas_rlimit = 300000
         self.max_depth = max_depth
         self.heap0 = {}
         self.obligs = []
@@ -163,6 +165,9 @@ class Engine:
         self.loop_ordinals = {}
         self.feas_cache = {}
         self._quant_cache = {}
+        self._binder_cache = {}
+        self._abs_memo = {}
+        self._simp_memo = {}
         self.deadline = None
         self.yield_handlers = []
         self.spec_ctx = []
@@ -210,10 +215,58 @@ class Engine:
         c[fid] = (r, f)  # keep f alive: z3 recycles ast ids of collected terms
         return r
 
+    def has_binder(self, f):
+        """contains a lambda or a quantifier anywhere"""
+        c = self._binder_cache
+        fid = f.get_id()
+        r = c.get(fid)
+        if r is not None:
+            return r[0]
+        todo = [f]
+        seen = set()
+        r = False
+        while todo:
+            t = todo.pop()
+            tid = t.get_id()
+            if tid in seen:
+                continue
+            seen.add(tid)
+            if z3.is_quantifier(t):
+                r = True
+                break
+            todo.extend(t.children())
+        c[fid] = (r, f)
+        return r
+
+    def abstract(self, f):
+        """Propositional abstraction for path pruning: every boolean atom that contains a lambda / quantifier is replaced
+        by a fresh Bool (the same Bool for the same atom).  Sound for pruning (more models = more paths kept) and keeps
+        z3 away from its array/lambda engine, which is where short time limits made it crash."""
+        m = self._abs_memo
+        fid = f.get_id()
+        r = m.get(fid)
+        if r is not None:
+            return r[0]
+        if not self.has_binder(f):
+            res = f
+        elif z3.is_and(f) or z3.is_or(f) or z3.is_not(f) or z3.is_implies(f) or (z3.is_app(f) and f.decl().kind() in (z3.Z3_OP_ITE, z3.Z3_OP_EQ, z3.Z3_OP_XOR, z3.Z3_OP_IFF) and all(z3.is_bool(c) for c in f.children())):
+            res = f.decl()(*[self.abstract(c) for c in f.children()])
+        else:
+            res = z3.Bool(f"abs!{len(m)}")
+        m[fid] = (res, f)
+        return res
+
     def feasible(self, st, full=False):
-        """Path pruning.  Only the quantifier-free hypotheses are used (fewer hypotheses = more paths kept = sound);
-        `unknown` counts as feasible."""
-        hyps = st.hyps if full else [f for f in st.hyps if not self.has_quant(f)]
+        """Path pruning on the propositional abstraction of the (simplified) hypotheses; `unknown` counts as feasible."""
+        hyps = []
+        for f in st.hyps:
+            sf = self._simp_memo.get(f.get_id())
+            if sf is None:
+                sf = (z3.simplify(f), f)
+                self._simp_memo[f.get_id()] = sf
+            a = self.abstract(sf[0])
+            if not z3.is_true(a):
+                hyps.append(a)
         key = tuple(f.get_id() for f in hyps)
         r = self.feas_cache.get(key)
         if r is None:
@@ -230,7 +283,7 @@ class Engine:
             return True
         s = z3.Solver()
         s.set("timeout", self.feas_timeout)
-        s.add(*[h for h in st.hyps if not self.has_quant(h)])
+        s.add(*[self.abstract(z3.simplify(h)) for h in st.hyps])
         s.add(z3.Not(f))
         return s.check() == z3.unsat
 
@@ -474,8 +527,7 @@ class Engine:
         elif k == "none":
             yield st, z3.BoolVal(False)
         elif k == "set":
-            x = S.fresh("w", V)
-            yield st, z3.Exists([x], sv.t[x])
+            yield st, S.set_nonempty(sv.t)
         elif k == "list":
             yield st, sv.t[0] > 0
         elif k == "dict":
@@ -587,6 +639,11 @@ class Engine:
         sv = unbox(v, parse_type(ty), f)
         if sv.kind == "v" and isinstance(strip_opt(sv.ty), (TObj, TUnion)):
             f.add(z3.Implies(V.is_obj(v), self.alive(st)[v]))
+            inner = strip_opt(sv.ty)
+            names = [inner.cls] if isinstance(inner, TObj) else [i.cls for i in inner.items if isinstance(i, TObj)]
+            if names and all(n in self.repo.classes for n in names):
+                # declared element / field types are assumed (well-typedness of inputs)
+                f.add(z3.Implies(V.is_obj(v), Or(*[self.instance_of(v, n) for n in names])))
         return st.with_facts(f), sv
 
     def narrow(self, st, sv, want):
@@ -1310,6 +1367,25 @@ class Engine:
                     yield from self.eval(n.body if side else n.orelse, st3)
 
     def e_BoolOp(self, n, st):
+        if self.spec_ctx:
+            # specification mode: and/or are logical connectives over (merged) truth values, no path forking;
+            # each operand is evaluated under the hypothesis that evaluation reaches it (short-circuit semantics)
+            from .spec import _bool_of
+
+            acc = None
+            cur = st
+            hyp = st
+            for v in n.values:
+                b, hyp2 = _bool_of(self, v, hyp)
+                cur = cur.with_facts(hyp2.facts[len(hyp.facts):])
+                if isinstance(n.op, ast.And):
+                    acc = b if acc is None else And(acc, b)
+                    hyp = hyp2.assume(b)
+                else:
+                    acc = b if acc is None else Or(acc, b)
+                    hyp = hyp2.assume(Not(b))
+            yield cur, sv_bool(acc)
+            return
         yield from self._boolop(n, n.values, st)
 
     def _boolop(self, n, values, st):
